@@ -34,10 +34,18 @@ Definition consts_agree (c : scase) : bool :=
   let k := cfg_of_chunk (k_chunk c) in
   let '(i, p, m) := j_consts c in (ideal k =? i) && (pm k =? p) && (mbytes k =? m).
 
+(* harness/vsched.h looks at "all finished" and "nobody runnable" BEFORE it looks at the step budget, Base.Sched.run looks at the
+   fuel first: a run whose last step is exactly the budget-th is 'done' for vsched and SBudget for run; same state, same trace *)
+Definition vstatus (s : state (list Z)) (st : status) : status :=
+  match st with
+  | SBudget => if finished (list Z) s then SDone else match cands (list Z) s with [] => SDeadlock | _ => SBudget end
+  | x => x
+  end.
+
 Definition agrees (c : scase) : bool :=
   consts_agree c &&
   let '(s, tr, st) := run_sb (list Z) lq_enq oq_deq (cfg_of_chunk (k_chunk c)) (k_fuel c) [] (k_progs c) (k_sched c) in
-  list_eqb zpair_eqb tr (j_trace c) && (status_code st =? j_status c) && (lock s =? j_lock c) &&
+  list_eqb zpair_eqb tr (j_trace c) && (status_code (vstatus s st) =? j_status c) && (lock s =? j_lock c) &&
   (Z.of_nat (length (backing s)) =? j_slabs c) && (maxocc s =? j_maxocc c) &&
   list_eqb (list_eqb zpair_eqb) (map (fun th => rev (res th)) (threads s)) (j_results c).
 
